@@ -354,8 +354,10 @@ func (re *Regexp) findAllRunesIndex(runner *Runner, input []rune, startAt, n int
 	var out [][]int
 	var flat []int
 	if n > 0 {
-		out = make([][]int, 0, n)
-		flat = make([]int, 0, n*2)
+		// n is an upper bound given by the caller, not a size: do not allocate for matches that may never come
+		c := min(n, 16)
+		out = make([][]int, 0, c)
+		flat = make([]int, 0, c*2)
 	}
 
 	prevEnd := -1
